@@ -120,7 +120,7 @@ func init() {
 		Rule: "a valid generated info dictionary is edited (0-3 edits: negative / overflowing / huge file lengths, piece length 0/negative/huge/odd, piece string cut or grown, wrong types, deleted keys, length and files together, empty files list, odd paths, deep nesting, huge or empty name, 50000 files, byte flips, truncation, duplicated key, trailing bytes) and handed to a real session as a .torrent file, as the body of a torrent URL, as metadata served by a scripted peer for a magnet link whose hash matches the edited bytes, or as the info of a resume record before NewSession; whatever is accepted must show positive piece length, >=1 piece, non-negative file lengths, piece count = ceil(total/piece length) and respect MaxPieces; Start must leave the event loop answering Stats() for 20 simulated seconds; the process runs under a 6 GB address-space limit and a 90 s wall-clock watchdog, so endless loops and runaway allocation end the run as a crash or hang, which this property owns; non-trivial always; distinct = distinct event-trace hashes"}
 	props["C07"] = &propCfg{Scenarios: []scenarioRef{{"paths", 1}}, OwnsCrash: true, Level: "exploration",
 		Rule: "single- and multi-file torrents whose name and path components are drawn from hostile strings (dot-dot, dot, empty, embedded separators and backslashes, absolute, NUL, 300 bytes, invalid UTF-8, traversal chains aimed at files that exist in the simulated file system) are added to a real session with and without the torrent-id directory level, started (allocation runs), and removed; 40% of the runs also post a multipart move request to the session's RPC port whose tar entries have hostile names; every operation in the simulated disk's audit log other than stat must lie inside the torrent's own directory (or be the creation of its parents), files that exist elsewhere must survive, and a completed allocation must leave as many distinct files as the torrent has; non-trivial always; distinct = distinct event-trace hashes"}
-	props["C02"] = &propCfg{Scenarios: []scenarioRef{{"create", 2}, {"transfer_clean", 2}, {"seeding", 1}, {"pair", 1}, {"transfer_byz", 1}}, Level: "exploration", Also: []string{"C03/piece.content", "C03/piece.length", "C11/pair.content"},
+	props["C02"] = &propCfg{Scenarios: []scenarioRef{{"create", 2}, {"transfer_clean", 2}, {"seeding", 1}, {"pair", 1}, {"transfer_byz", 1}, {"lifecycle", 1}}, Level: "exploration", Also: []string{"C03/piece.content", "C03/piece.length", "C11/pair.content", "C04/truth.seeding_incomplete", "C04/truth.have_exceeds_disk", "C01/claim.not_on_disk", "C04/converge.files_differ"},
 		Rule: "(a) rain's torrent creation code reads a generated directory tree from the simulated disk (short reads, files ending on / one byte off piece boundaries, empty files, nested directories, lexical walk order): the piece hashes must equal those of an independent flat-array model and a real session must verify the created torrent completely against the same tree; (b) in every transfer world each request a scripted peer receives must lie inside its piece, be at most 16 KiB, include no byte of a padding file and not overlap another outstanding request, no padding file is ever opened or written on the simulated disk, every write lies inside one piece and inside its file and carries the torrent's bytes, web seed ranges stay inside files and never name a padding file; layouts include zero-length files, leading / trailing / adjacent / whole-piece padding and odd piece lengths; (c) what was written is read back: every block a fuzzing leecher (unaligned offsets, odd lengths, ranges crossing file and cache-block boundaries) receives from a session that holds the data, and every file a second rain session downloads from the first, equals the torrent's bytes (the C03 block oracles and the pair content oracle count for this property in these scenarios); non-trivial if a piece write happened or a torrent was created; distinct = distinct event-trace hashes"}
 	props["C15"] = &propCfg{Scenarios: []scenarioRef{{"trackers", 1}}, Level: "exploration",
 		Rule: "1-3 torrents announcing to 1-3 tiers of scripted HTTP and UDP trackers whose reply scripts are generated (ok with any 32-bit interval / min interval or none, failure with retry-in, 4xx/5xx, garbage, oversize, no reply, delays; UDP: wrong transaction id, short, duplicate, datagram loss/duplication, connection-id expiry), down windows, start/stop/announce commands, optional seed so that 'completed' happens; every announce is checked online (info-hash, port, peer id vs handshake, counters, event discipline per run, spacing); non-trivial if more than two announces were received; distinct = distinct event-trace hashes among non-trivial runs"}
